@@ -366,7 +366,8 @@ impl<'s> SnapshotProvider<'s> {
     /// Adds another requirement that matches any version of a package.
     /// If you use "*" as the matcher, it will match any version of the package.
     pub fn add_package_requirement(&mut self, name: NameId, matcher: &str) -> VersionSetId {
-        let id = self.snapshot.version_sets.max() + self.additional_version_sets.len();
+        // Additional version sets are numbered after the highest captured id.
+        let id = self.snapshot.version_sets.max() + 1 + self.additional_version_sets.len();
         let package = self.package(name);
 
         let matching_candidates = package
@@ -408,9 +409,9 @@ impl<'s> SnapshotProvider<'s> {
 
     fn version_set(&self, version_set: VersionSetId) -> &VersionSet {
         let idx = version_set.to_usize();
-        let max_idx = self.snapshot.version_sets.max();
-        if idx >= max_idx {
-            &self.additional_version_sets[idx - max_idx]
+        let first_additional_idx = self.snapshot.version_sets.max() + 1;
+        if idx >= first_additional_idx {
+            &self.additional_version_sets[idx - first_additional_idx]
         } else {
             self.snapshot
                 .version_sets
